@@ -20,7 +20,8 @@ import ast
 import itertools
 
 from .. import astutil as A
-from ..alg import Interp, Obj, Poly, PyFunc, Undecided, fn, to_poly
+from ..alg import AutoRegion, Interp, Obj, Poly, PyFunc, Undecided, fn, to_poly
+from ..objmodel import World
 from ..dep import Deps
 from .. import listnp
 from . import viewers
@@ -97,6 +98,8 @@ def run(ctx):
     viewers.check(ctx, r9)
     r10 = ctx.rule("C01.R10", "APPLY: constructor + _precompute + apply of the multiplicative appliers normfactor, lumi, staterror, shapesys, shapefactor interpreted END TO END (real ParamViewer/_TensorViewer, list tensors) on 2 modifiers x 2 samples x 3 channels x 4 bins, unbatched and with 2 batch rows: the factor in cell (modifier, sample, row, bin) is the modifier's own parameter component for that bin in that row where the sample declares it, and exactly 1 elsewhere", "APPLY", floor=10)
     _apply_end_to_end(ctx, r10, reg)
+    r11 = ctx.rule("C01.R11", "BUILD: _nominal_and_modifiers_from_spec interpreted END TO END with the real nominal builder and all seven modifier builders on a 3-channel (listed out of order) x 2-sample specification in which every modifier type occurs once or twice and one sample is absent from a channel: nominal rates and every builder tensor follow config.channels x config.samples; a cell is masked in exactly where the sample declares the modifier; undeclared cells carry the neutral data (nominal / 1 / 0); each applier receives its own type's modifiers, the configuration, its own builder data and the batch size", "BUILD", floor=9)
+    _build_end_to_end(ctx, r11, reg)
 
     for key, (b, c) in sorted(reg.items()):
         for m in list(b.methods.values()) + list(c.methods.values()):
@@ -537,3 +540,126 @@ def _apply_end_to_end(ctx, rid, reg):
                     ctx.violated(rid, cl.methods["apply"], f"{cl.name} factor [batch_size={bs}]", f"the factor of modifier {mods[mi]} on sample {samples[si]}, batch row {r}, global bin {j} is {g_}; the rate formula wants {want[mi][si][r][j]} (own parameter component where the sample declares the modifier, 1 elsewhere)", expected=str(want), found=str(got))
             except (Undecided, KeyError, TypeError, ValueError, IndexError, AttributeError) as e:
                 ctx.unrecognised(rid, cl, f"{cl.name} end to end [batch_size={bs}]", f"not interpretable: {type(e).__name__}: {e}")
+
+
+def _build_end_to_end(ctx, rid, reg):
+    repo = ctx.repo
+    at, c = Poly.atom, Poly.const
+    f = repo.func(PDF, "_nominal_and_modifiers_from_spec")
+    nbc = repo.cls(PDF, "_nominal_builder")
+    ctx.touch(f)
+    for m_ in nbc.methods.values():
+        ctx.touch(m_)
+    nbins = {"cz": 1, "ca": 1, "cm": 2}
+    order_c, order_s = ["ca", "cm", "cz"], ["s1", "s2"]
+
+    def mod(name, typ, data=None):
+        return {"name": name, "type": typ, "data": data}
+
+    spec = {"channels": [
+        {"name": "cz", "samples": [{"name": "s2", "data": [at("z_s2_0")], "modifiers": [mod("mu", "normfactor"), mod("st", "staterror", [at("ust_z0")])]}]},
+        {"name": "ca", "samples": [
+            {"name": "s1", "data": [at("a_s1_0")], "modifiers": [mod("ns", "normsys", {"hi": at("HI"), "lo": at("LO")}), mod("mu", "normfactor")]},
+            {"name": "s2", "data": [at("a_s2_0")], "modifiers": [mod("ss", "shapesys", [at("uss_a0")])]}]},
+        {"name": "cm", "samples": [
+            {"name": "s1", "data": [at("m_s1_0"), at("m_s1_1")], "modifiers": [mod("hs", "histosys", {"hi_data": [at("h0"), at("h1")], "lo_data": [at("l0"), at("l1")]}), mod("lumi", "lumi")]},
+            {"name": "s2", "data": [at("m_s2_0"), at("m_s2_1")], "modifiers": [mod("st", "staterror", [at("ust_m0"), at("ust_m1")]), mod("sf", "shapefactor"), mod("ns", "normsys", {"hi": at("HI2"), "lo": at("LO2")})]}]},
+    ]}
+    mods = sorted({(m["name"], m["type"]) for ch in spec["channels"] for sm in ch["samples"] for m in sm["modifiers"]})
+    rec = {"appliers": {}}
+    ext = listnp.externals()
+    ext.update({
+        "subscribe": lambda a, k: PyFunc(lambda a2, k2: None, "subscriber"), "get_backend": lambda a, k: (Obj("tensorlib"), None),
+        "_finalize_parameters_specs": lambda a, k: (rec.__setitem__("finalize_args", a) or {"REQ": True}),
+        "required_parset": lambda a, k: {"required": True},
+        "_create_parameters_from_spec": lambda a, k: (Obj("paramobjs"), [], []),
+    })
+    w = World(ext, region=AutoRegion(), module_env={"pyhf": Obj("pyhf", {"default_backend": Obj("default_backend")}), "events": Obj("events"), "exceptions": Obj("exceptions")})
+    w.add_class(nbc)
+    mset = {}
+    for key, (b, cl) in sorted(reg.items()):
+        w.add_class(b)
+        mset[key] = (PyFunc(lambda a, k, b=b: w.new(b, a, k), b.name), PyFunc(lambda a, k, key=key: (rec["appliers"].__setitem__(key, (a, k)) or Obj(f"applier_{key}")), cl.name))
+    cfg = Obj("config", {"channels": list(order_c), "samples": list(order_s), "channel_nbins": {k_: c(v_) for k_, v_ in nbins.items()}, "modifiers": list(mods), "modifier_settings": {}})
+    site = f"{PDF}::_nominal_and_modifiers_from_spec [interpreted]"
+    try:
+        out = w.call_func(f, [mset, cfg, spec, Obj("BATCH")])
+    except (Undecided, KeyError, TypeError, ValueError, IndexError, AttributeError) as e:
+        ctx.unrecognised(rid, f, "_nominal_and_modifiers_from_spec", f"not interpretable: {type(e).__name__}: {e}")
+        return
+
+    def s_(v):
+        if isinstance(v, (list, tuple)):
+            return [s_(x) for x in v]
+        if isinstance(v, bool):
+            return v
+        return str(to_poly(v))
+
+    def cell(ch, sm):
+        for c_ in spec["channels"]:
+            if c_["name"] == ch:
+                for x in c_["samples"]:
+                    if x["name"] == sm:
+                        return x
+        return None
+
+    def declared(ch, sm, name, typ):
+        x = cell(ch, sm)
+        return next((m for m in (x["modifiers"] if x else []) if m["name"] == name and m["type"] == typ), None)
+
+    def nominal(ch, sm):
+        x = cell(ch, sm)
+        return s_(x["data"]) if x else ["0"] * nbins[ch]
+
+    # nominal rates
+    want_nom = [[[[v for ch in order_c for v in nominal(ch, sm)]] for sm in order_s]]
+    got_nom = s_(out[1]) if isinstance(out, (tuple, list)) and len(out) == 2 else None
+    if got_nom == want_nom:
+        ctx.holds(rid, f"{site} nominal rates", f"(1, {len(order_s)}, 1, 4) in config order, zeros where a sample is absent")
+    else:
+        ctx.violated(rid, nbc.methods["finalize"], "nominal rates", "the nominal rate tensor is not (1, samples, 1, bins) with channels in the order the configuration reports and zeros where a sample is absent from a channel", expected=str(want_nom), found=str(got_nom))
+    # per type
+    for key, (b, cl) in sorted(reg.items()):
+        a_k = rec["appliers"].get(key)
+        if a_k is None:
+            ctx.violated(rid, f, f"applier {key}", f"no {key} applier is constructed")
+            continue
+        a, k = a_k
+        mine = [x for x in mods if x[1] == key]
+        ok_args = [tuple(x) for x in (k.get("modifiers") or [])] == mine and k.get("pdfconfig") is cfg and getattr(k.get("batch_size"), "name", None) == "BATCH"
+        bd = k.get("builder_data") or {}
+        if not ok_args:
+            ctx.violated(rid, f, f"applier arguments [{key}]", "the applier is not constructed from (its own type's modifiers in config order, the configuration, the batch size)", expected=f"modifiers={mine}", found=f"modifiers={k.get('modifiers')} batch_size={k.get('batch_size')}")
+        problems = []
+        for name, typ in mine:
+            per_sample = bd.get(f"{typ}/{name}")
+            if per_sample is None:
+                problems.append(f"no builder data for {typ}/{name}")
+                continue
+            for sm in order_s:
+                d = (per_sample.get(sm) or {}).get("data") or {}
+                want = {"mask": [bool(declared(ch, sm, name, typ)) for ch in order_c for _ in range(nbins[ch])]}
+                if typ == "histosys":
+                    for fld in ("hi_data", "lo_data"):
+                        want[fld] = [v for ch in order_c for v in (s_(declared(ch, sm, name, typ)["data"][fld]) if declared(ch, sm, name, typ) else nominal(ch, sm))]
+                    want["nom_data"] = [v for ch in order_c for v in nominal(ch, sm)]
+                elif typ == "normsys":
+                    for fld in ("hi", "lo"):
+                        want[fld] = [v for ch in order_c for v in ([s_(declared(ch, sm, name, typ)["data"][fld])] * nbins[ch] if declared(ch, sm, name, typ) else ["1"] * nbins[ch])]
+                elif typ in ("shapesys", "staterror"):
+                    want["uncrt"] = [v for ch in order_c for v in (s_(declared(ch, sm, name, typ)["data"]) if declared(ch, sm, name, typ) else ["0"] * nbins[ch])]
+                    want["nom_data"] = [v for ch in order_c for v in nominal(ch, sm)]
+                for fld, wv in want.items():
+                    gv = s_(d.get(fld)) if fld in d else None
+                    if gv != wv:
+                        problems.append(f"{typ}/{name} sample {sm} field {fld}: {gv}, expected {wv}")
+        if problems:
+            ctx.violated(rid, b.methods.get("append") or b, f"builder data [{key}]", "the builder tensors do not follow config.channels x config.samples with a cell masked in exactly where the sample declares the modifier and neutral data elsewhere: " + problems[0], expected="see message", found=f"{len(problems)} field(s) differ")
+        elif ok_args:
+            ctx.holds(rid, f"{site} {key}", f"{len(mine)} modifier(s) x {len(order_s)} samples x 4 bins: masks and data as declared; applier arguments in their roles")
+    fa = rec.get("finalize_args")
+    names = sorted({n for n, _ in mods})
+    if fa and len(fa) == 2 and isinstance(fa[1], dict) and sorted(fa[1]) == names:
+        ctx.holds(rid, f"{site} parameter requirements", f"one requirement list per parameter name {names}")
+    else:
+        ctx.violated(rid, f, "parameter requirements", "the parameter requirements handed on are not keyed by exactly the declared modifier names", expected=str(names), found=str(sorted(fa[1]) if fa and len(fa) == 2 and isinstance(fa[1], dict) else fa))
